@@ -148,9 +148,9 @@ pub fn directed(ctx: &WorkerCtx) -> Result<(), Fail> {
     Ok(())
 }
 
-/// a playable position on a checkerboard pattern of 32 occupied squares whose material is
-/// reachable: per side the seven original officers plus eight men that are each a pawn or a
-/// promoted officer
+/// a playable position on a checkerboard pattern of 30 occupied squares whose material is
+/// reachable: per side six original officers (one bishop: the squares have one colour) plus
+/// eight men that are each a pawn or a promoted officer
 fn fragmented(g: &mut Expand) -> Option<Pos> {
     let parity = g.below(2) as u8;
     let occ: Vec<u8> = (0..64u8).filter(|s| (s % 8 + s / 8) % 2 == parity).collect();
@@ -165,8 +165,10 @@ fn fragmented(g: &mut Expand) -> Option<Pos> {
         let j = g.below(i as u64 + 1) as usize;
         rest.swap(i, j);
     }
-    for (c, squares) in [(C::White, &rest[..15]), (C::Black, &rest[15..])] {
-        let mut kinds: Vec<P> = vec![P::Knight, P::Knight, P::Bishop, P::Bishop, P::Rook, P::Rook, P::Queen];
+    // all occupied squares have one colour, so a side's second bishop would already be a
+    // promoted one: six original officers + eight pawns-or-promotions = fourteen men a side
+    for (c, squares) in [(C::White, &rest[..14]), (C::Black, &rest[14..28])] {
+        let mut kinds: Vec<P> = vec![P::Knight, P::Knight, P::Bishop, P::Rook, P::Rook, P::Queen];
         let inner = squares.iter().filter(|s| (1..=6).contains(&(**s / 8))).count();
         let mut pawns = 0;
         for _ in 0..8 {
